@@ -30,9 +30,9 @@ CHECKS = {
             "process death only; file-system calls atomic and durable in order; Standard I/O", "DESIGN.md §6 C07"),
  "C18": seq("operation sequences over varint-like / long keys, each followed by Merge (both scan orders): every hint entry is checked against the record decoded at its position; hinted keys = stored keys = live keys; differential hint-path Open vs scan-path Open (index entries, values, KeyNum)",
             "differential open on Standard I/O", "DESIGN.md §6 C18"),
- "C08": ("sched", "stateless model checking of the implementation: controlled cooperative scheduler, preemption-bounded DFS over all interleavings at lock/atomic granularity; porcupine linearizability check per schedule",
+ "C08": ("sched", "stateless model checking of the implementation: controlled cooperative scheduler (in a -race build whose baton hand-off is invisible to the race detector), preemption-bounded DFS over all interleavings at lock/atomic granularity; porcupine linearizability check per schedule; conflicting unsynchronised accesses between the calls of a schedule are reported as well",
             "every scenario of a shape grammar (2-3 client threads of 1-2 calls on colliding keys, optionally a Merge thread, x initial states x index types) is explored exhaustively up to the preemption bound (unbounded for the small shapes); per schedule: per-key linearizability of the call/return history and equality of the quiescent live mapping with the mapping after one and two restarts",
-            "schedule points at Lock/RLock/atomics only (sound for race-free executions, premise checked by C09); bounds on threads, calls and preemptions", "DESIGN.md §6 C08"),
+            "schedule points at Lock/RLock/atomics only (sound for race-free executions; the premise is monitored by the race detector in every explored schedule, and by C09 for all call pairs); bounds on threads, calls and preemptions", "DESIGN.md §6 C08"),
  "C09": ("sched", "stateless model checking under the controlled scheduler in a -race build whose baton hand-off is invisible to the race detector; preemption-bounded DFS",
             "all pairs and writer-containing triples of the 11 API calls x 3 index types x {one file, rotation on every record}: every schedule up to the preemption bound is monitored by the Go race detector and checked for panics, deadlock/livelock, internal errors and nil keys",
             "the race detector sees only enumerated executions; 2-3 goroutines", "DESIGN.md §6 C09"),
